@@ -730,6 +730,54 @@ func readerStackFacts(file string) ([3]bool, error) {
 	return facts, nil
 }
 
+// closesOnNonKafka: the function contains `if !errors.As(err, &X) [&& !errors.Is(err, io.ErrShortBuffer)] { ….Close() }`
+// and no other call of Close on a connection.
+func closesOnNonKafka(fd *ast.FuncDecl, shortBuffer bool) bool {
+	if fd == nil {
+		return false
+	}
+	isNotCall := func(e ast.Expr, fn string) bool {
+		u, ok := e.(*ast.UnaryExpr)
+		if !ok || u.Op != token.NOT {
+			return false
+		}
+		c, ok := u.X.(*ast.CallExpr)
+		if !ok {
+			return false
+		}
+		sel, ok := c.Fun.(*ast.SelectorExpr)
+		return ok && exprString(sel.X) == "errors" && sel.Sel.Name == fn
+	}
+	good, closes := 0, 0
+	ast.Inspect(fd.Body, func(n ast.Node) bool {
+		switch s := n.(type) {
+		case *ast.IfStmt:
+			cond := s.Cond
+			ok := false
+			if be, is := cond.(*ast.BinaryExpr); is && be.Op == token.LAND && shortBuffer {
+				ok = isNotCall(be.X, "As") && isNotCall(be.Y, "Is") && containsText(be.Y, "io.ErrShortBuffer")
+			} else if !shortBuffer {
+				ok = isNotCall(cond, "As")
+			}
+			if ok && len(s.Body.List) == 1 && s.Else == nil {
+				if es, is := s.Body.List[0].(*ast.ExprStmt); is {
+					if c, is := es.X.(*ast.CallExpr); is {
+						if sel, is := c.Fun.(*ast.SelectorExpr); is && sel.Sel.Name == "Close" {
+							good++
+						}
+					}
+				}
+			}
+		case *ast.CallExpr:
+			if sel, ok := s.Fun.(*ast.SelectorExpr); ok && sel.Sel.Name == "Close" {
+				closes++
+			}
+		}
+		return true
+	})
+	return good == 1 && closes == 1
+}
+
 // transportDropsFailed: in the request loop of (*conn).run, an `if err != nil { … }` statement that contains a break /
 // return occurs before the first statement that calls releaseConn.
 func transportDropsFailed(file string) (bool, error) {
@@ -1121,6 +1169,10 @@ func extractConnLegacy(repo, root string) error {
 		fmt.Fprintf(&b, "(\"%s\", %v)", api, strict)
 	}
 	b.WriteString("]\n\n")
+	// which errors close the connection: `if !errors.As(err, &kafkaError) { c.conn.Close() }` in do,
+	// `if !errors.As(err, &kafkaError) && !errors.Is(err, io.ErrShortBuffer) { conn.Close() }` in Batch.close
+	fmt.Fprintf(&b, "/-- (*Conn).do / (*Batch).close close the connection exactly on errors that are not kafka errors (Batch: nor io.ErrShortBuffer) -/\ndef doClosesNonKafka : Bool := %v\ndef batchClosesNonKafka : Bool := %v\n\n",
+		closesOnNonKafka(connFns["do"], false), closesOnNonKafka(connFns["Batch.close"], true))
 	b.WriteString("def callsOf (m : String) : List String := ((calls.find? (·.1 == m)).map (·.2)).getD []\n")
 	b.WriteString("def versionsOf (m : String) : List Nat := ((negotiated.find? (·.1 == m)).map (·.2)).getD []\n")
 	b.WriteString("end KV.Gen.ConnLegacy\n")
